@@ -27,10 +27,15 @@
 package main
 
 import (
+	"encoding/json"
 	"fmt"
+	"os"
+	"os/exec"
+	"path/filepath"
 	"sort"
 	"strconv"
 	"strings"
+	"sync"
 
 	"verif/harness/vh"
 )
@@ -657,7 +662,7 @@ func main() {
 	case "gen":
 		n := 1000
 		if a.Tier == "thorough" {
-			n = 60000
+			n = 30000
 		}
 		if a.N > 0 {
 			n = a.N
@@ -678,6 +683,10 @@ func main() {
 		w.Close()
 	case "run":
 		quiet()
+		if lines := vh.ReadLines(a.Cases); os.Getenv("C05_CHILD") == "" && len(lines) >= 200 {
+			runParallel(a, lines)
+			return
+		}
 		st := vh.NewStats("entry streams of many clients over the real rsm.StateMachine with rsm.LRUMaxSessionCount lowered to 1..8 (a few at the real 4096): register / propose / retry (duplicates placed at random later positions) / acknowledge / unregister, clients that follow the client.Session discipline and wild entries (boundary series ids, special ids with non-empty cmd, client 0), more clients than the LRU capacity, snapshot+restart (SNAP) and session-hash (H) at random cut points. non-trivial = the case contains at least one fresh application, one retry answered from the session cache, one acknowledged duplicate that is ignored and one proposal of an unknown/evicted session; distinct by full case text")
 		obs := vh.Create(a.Out + "/impl.obs")
 		for _, line := range vh.ReadLines(a.Cases) {
@@ -692,4 +701,69 @@ func main() {
 		obs.Close()
 		st.Write(a.Out)
 	}
+}
+
+// runParallel: the cases are independent; rsm.LRUMaxSessionCount is a package
+// variable, so they are split over child PROCESSES (contiguous chunks) and the
+// observations / statistics are concatenated in order.
+func runParallel(a vh.Args, lines []string) {
+	workers := 4
+	if a.Tier == "thorough" {
+		workers = 10
+	}
+	exe, err := os.Executable()
+	must(err)
+	type child struct {
+		dir string
+		err error
+	}
+	cs := make([]child, workers)
+	var wg sync.WaitGroup
+	for w := 0; w < workers; w++ {
+		lo, hi := len(lines)*w/workers, len(lines)*(w+1)/workers
+		dir := filepath.Join(a.Out, fmt.Sprintf("child%d", w))
+		must(os.MkdirAll(dir, 0755))
+		cf := filepath.Join(dir, "cases.txt")
+		must(os.WriteFile(cf, []byte(strings.Join(lines[lo:hi], "\n")+"\n"), 0644))
+		cs[w].dir = dir
+		wg.Add(1)
+		go func(w int) {
+			defer wg.Done()
+			cmd := exec.Command(exe, "run", "-tier", a.Tier, "-seed", fmt.Sprint(a.Seed), "-cases", cf, "-out", dir)
+			cmd.Env = append(os.Environ(), "C05_CHILD=1")
+			cmd.Stderr = os.Stderr
+			cs[w].err = cmd.Run()
+		}(w)
+	}
+	wg.Wait()
+	out, err := os.Create(filepath.Join(a.Out, "impl.obs"))
+	must(err)
+	var total *vh.Stats
+	for _, c := range cs {
+		if c.err != nil {
+			fmt.Fprintln(os.Stderr, "c05: child failed:", c.err)
+			os.Exit(3)
+		}
+		b, err := os.ReadFile(filepath.Join(c.dir, "impl.obs"))
+		must(err)
+		_, err = out.Write(b)
+		must(err)
+		var s vh.Stats
+		sb, err := os.ReadFile(filepath.Join(c.dir, "stats.json"))
+		must(err)
+		must(json.Unmarshal(sb, &s))
+		if total == nil {
+			total = vh.NewStats(s.Rule)
+			total.Samples = s.Samples
+		}
+		total.Evaluations += s.Evaluations
+		total.DistinctNontrivial += s.DistinctNontrivial
+		for k, v := range s.Distribution {
+			total.Distribution[k] += v
+		}
+		total.MonitorViolations = append(total.MonitorViolations, s.MonitorViolations...)
+		_ = os.RemoveAll(c.dir)
+	}
+	must(out.Close())
+	total.Write(a.Out)
 }
